@@ -40,6 +40,11 @@ pub enum Item {
     LoopVar { j: u32, count: u32, random_start: bool, random_step: bool, start: i32, step: i32, body: Vec<Item> },
     /// loop repeated until a random test is non-zero (tested after each pass)
     Until { j: u32, body: Vec<Item> },
+    /// a leaf template whose OWN attributes hold the occurrence, and `n` reuses of it:
+    /// kind 0 = beacon in a data attribute, 1 = one expression in the compound `wh`
+    ReuseLeaf { j: u32, kind: u8, n: u8 },
+    /// two textually identical blocks in one attribute value
+    TwoBlocks { j: u32, site: u8 },
     /// a <defaults> block (no random occurrence of its own)
     Defaults,
     /// element without any random occurrence
@@ -157,6 +162,27 @@ fn render_items(items: &[Item], in_template: bool, out: &mut String) {
                 out.push_str(&format!("<loop until=\"{{{{randint(0, 1)}}}}\"><rect class=\"l{j}\" wh=\"1\"/>\n"));
                 render_items(body, in_template, out);
                 out.push_str("</loop>\n");
+            }
+            Item::ReuseLeaf { j, kind, n } => {
+                if *kind == 0 {
+                    out.push_str(&format!("<specs><rect id=\"lf{j}\" wh=\"2\" data-k=\"lf{j}_{B}\"/></specs>\n"));
+                } else {
+                    out.push_str(&format!("<specs><rect id=\"lf{j}\" wh=\"{{{{randint(1, 999999)}}}}\"/></specs>\n"));
+                }
+                for _ in 0..*n {
+                    out.push_str(&format!("<reuse href=\"#lf{j}\"/>\n"));
+                }
+            }
+            Item::TwoBlocks { j, site } => {
+                let m = if in_template { format!("${{m}}t{j}") } else { format!("b{j}") };
+                let s = match site {
+                    0 => format!("<rect xy=\"0 {j}\" wh=\"2\" data-k=\"{m}a_{B} {m}b_{B}\"/>"),
+                    1 => format!("<rect xy=\"0 {j}\" wh=\"2\" text=\"{m}a_{B} {m}b_{B}\"/>"),
+                    2 => format!("<text xy=\"0 {j}\">{m}a_{B} {m}b_{B}</text>"),
+                    _ => format!("<var w{j}=\"{m}a_{B} {m}b_{B}\"/><text xy=\"0 {j}\" text=\"$w{j}\"/>"),
+                };
+                out.push_str(&s);
+                out.push('\n');
             }
             Item::Defaults => out.push_str("<defaults><rect rx=\"1\"/><circle class=\"dc\"/><_ match=\"text line\" class=\"dd\"/></defaults>\n"),
             Item::Plain => out.push_str("<rect xy=\"5 5\" wh=\"1\"/>\n"),
@@ -316,6 +342,29 @@ impl<'a> Model<'a> {
                     };
                     self.obs.push((format!("{key}|text"), v));
                 }
+                Item::ReuseLeaf { j, kind, n } => {
+                    // nothing is drawn where the template is defined; every instance draws once
+                    for _ in 0..*n {
+                        if *kind == 0 {
+                            let v = self.beacon(0);
+                            self.obs.push((format!("lf{j}_|data"), v.to_string()));
+                        } else {
+                            let v = self.beacon(1);
+                            self.obs.push((format!("%lf{j}|leaf-wh"), format!("{v}/{v}")));
+                        }
+                    }
+                }
+                Item::TwoBlocks { j, .. } => {
+                    let key = match tmark {
+                        Some(m) => format!("{m}t{j}"),
+                        None => format!("b{j}"),
+                    };
+                    let a = self.beacon(0);
+                    let b = self.beacon(0);
+                    // (the order of the two within one value is not asserted)
+                    let (lo, hi) = (a.min(b), a.max(b));
+                    self.obs.push((format!("{key}|pair"), format!("{lo},{hi}")));
+                }
                 Item::Reseed { seed } => {
                     self.trace.push(Trace::Reseed(*seed));
                     self.rng = Pcg32::seed_from_u64(*seed);
@@ -400,6 +449,30 @@ impl<'a> Model<'a> {
 /// observed value for a key in the output: id-keys read a geometry attribute, marker keys
 /// read the digits following the marker; all occurrences in output order
 fn observe(out: &str, tree: &[Node], key: &str, site: &str) -> Vec<String> {
+    if site == "pair" {
+        // one observation per rendering: both values of the element, order-free
+        let a = observe(out, tree, &format!("{key}a_"), "data");
+        let b = observe(out, tree, &format!("{key}b_"), "data");
+        return a
+            .iter()
+            .zip(b.iter())
+            .map(|(x, y)| {
+                let (x, y): (i64, i64) = (x.parse().unwrap_or(-1), y.parse().unwrap_or(-1));
+                format!("{},{}", x.min(y), x.max(y))
+            })
+            .chain((a.len().min(b.len())..a.len().max(b.len())).map(|_| "<unpaired>".to_string()))
+            .collect();
+    }
+    if let Some(class) = key.strip_prefix('%') {
+        // instances of a leaf template carry the template's id as a class
+        let mut all = Vec::new();
+        xmltree::walk(tree, &mut all);
+        return all
+            .iter()
+            .filter(|e| e.attr("class").map(|c| c.split_whitespace().any(|x| x == class)).unwrap_or(false))
+            .map(|e| format!("{}/{}", e.attr("width").unwrap_or("<missing>"), e.attr("height").unwrap_or("<missing>")))
+            .collect();
+    }
     if let Some(id) = key.strip_prefix('#') {
         let mut all = Vec::new();
         xmltree::walk(tree, &mut all);
@@ -447,7 +520,13 @@ fn gen_items(w: &mut Rng, j: &mut u32, depth: usize, n_templates: usize, in_temp
                 j: jj,
                 site: w.pick(SITES).to_string(),
             }),
-            7 => v.push(Item::RandomF { j: jj }),
+            7 if w.chance(1, 2) => v.push(Item::RandomF { j: jj }),
+            7 => v.push(Item::TwoBlocks { j: jj, site: w.below(4) as u8 }),
+            17 if depth == 0 && !in_template => v.push(Item::ReuseLeaf {
+                j: jj,
+                kind: w.below(2) as u8,
+                n: 1 + w.below(3) as u8,
+            }),
             8 if depth == 0 && !in_template => {
                 // half of the reseeds repeat a seed already in force (the API seed or an
                 // earlier <config seed>): the stream must restart all the same
@@ -523,7 +602,16 @@ const MALFORMED: &[(&str, &str)] = &[
 ];
 
 fn malformed_site(site: &str, e: &str) -> String {
+    // loop control attributes are expression contexts of their own: no braces needed
+    let bare = e.trim_start_matches("{{").trim_end_matches("}}");
     match site {
+        "for-data" => format!("<for data=\"{e}\" var=\"fv\"><rect wh=\"1\" text=\"$fv\"/></for>"),
+        "for-data-bare" => format!("<for data=\"1, {bare}\" var=\"fv\"><rect wh=\"1\" text=\"$fv\"/></for>"),
+        "if-test-bare" => format!("<if test=\"{bare}\"><rect wh=\"1\"/></if>"),
+        "loop-while" => format!("<loop while=\"{bare}\"><rect wh=\"1\"/></loop>"),
+        "loop-until" => format!("<loop until=\"{bare}\"><rect wh=\"1\"/></loop>"),
+        "loop-start" => format!("<loop count=\"2\" loop-var=\"lv\" start=\"{e}\"><rect wh=\"1\" text=\"$lv\"/></loop>"),
+        "loop-step" => format!("<loop count=\"2\" loop-var=\"lv\" step=\"{e}\"><rect wh=\"1\" text=\"$lv\"/></loop>"),
         "x" => format!("<rect x=\"{e}\" y=\"0\" wh=\"1\"/>"),
         "text" => format!("<rect wh=\"1\" text=\"{e}\"/>"),
         "textel" => format!("<text xy=\"0 0\">{e}</text>"),
@@ -546,7 +634,7 @@ fn malformed_site(site: &str, e: &str) -> String {
 
 const MALFORMED_SITES: &[&str] = &[
     "x", "text", "textel", "data", "comment", "var", "loop-count", "if-test", "g-attr", "in-group", "in-loop", "reuse-attr",
-    "template", "points", "style", "wh",
+    "template", "points", "style", "wh", "for-data", "for-data-bare", "if-test-bare", "loop-while", "loop-until", "loop-start", "loop-step",
 ];
 
 impl Engine for C14 {
@@ -956,7 +1044,7 @@ impl Engine for C14 {
     }
 
     fn rule(&self) -> &'static str {
-        "two families. once: a forward-reference-free document with randint(0,999999) beacons / random() at 14 attribute sites, in loops (fixed or random count), ifs (fixed or random test), groups, reuse attributes and template bodies, API seed and <config seed> reseeding; every printed value must equal what svgdx prints for the same ordered draws in a flat calibration document (one plain element per occurrence per rendering; no PRNG algorithm assumed); on that stream: same values under any non-seed configuration, randint(n,n) advances, <config seed=S> restarts as a document with seed S. malformed: 8 malformed-expression kinds x 16 sites x 5 neighbourhoods (alone / next to / inside / after elements needing a retry) must fail. distinct by document; non-trivial = >= 2 draws (once) or a retry happened (malformed)"
+        "two families. once: a forward-reference-free document with randint(0,999999) beacons / random() at 14 attribute sites, in loops (fixed or random count), ifs (fixed or random test), groups, reuse attributes and template bodies, API seed and <config seed> reseeding; every printed value must equal what svgdx prints for the same ordered draws in a flat calibration document (one plain element per occurrence per rendering; no PRNG algorithm assumed); on that stream: same values under any non-seed configuration, randint(n,n) advances, <config seed=S> restarts as a document with seed S. malformed: 11 malformed-expression kinds x 23 sites (loop control included) x 5 neighbourhoods (alone / next to / inside / after elements needing a retry) must fail. distinct by document; non-trivial = >= 2 draws (once) or a retry happened (malformed)"
     }
     fn components_real(&self) -> Vec<&'static str> {
         vec!["svgdx library (transform_stream): element pipeline, expression evaluator, document PRNG, retry work-list", "rand_pcg (diagnostic probe only)"]
